@@ -171,13 +171,14 @@ func c06Run(c *core.Ctx) *core.Result {
 		}
 	}
 	rr := newRefReceiver(mode, invalid, R.Fork())
+	rr.ReqLinks = R.P(1, 2)
 	prog := &progressRec{}
 	gr := R.Fork()
 	cfg := wire.Config{Cap: capn}
 	if R.P(1, 2) {
 		cfg.Hook = func(end, op string, idx int64, phase int) { jitter(gr, 20) }
 	}
-	desc := fmt.Sprintf("view=%s script=%s invalid=%q cap=%d", viewKind, mode, invalid, capn)
+	desc := fmt.Sprintf("view=%s script=%s reqlinks=%v invalid=%q cap=%d", viewKind, mode, rr.ReqLinks, invalid, capn)
 	r.Sample = map[string]any{"config": desc, "entries": len(want)}
 	res := runSync(syncOpt{Cfg: cfg, Src: fs, Progress: prog.fn,
 		RecvFn: func(ctx context.Context, s fsutil.Stream) error { return rr.run(ctx, s) }})
